@@ -656,7 +656,12 @@ class Runner:
         if r < 0.55:
             return ('A', self.pick())
         if r < 0.7:
-            return ('S', self.S(self.pick()))
+            if self.frozen and self.rng.random() < 0.5:
+                return ('S', self.rng.choice(self.frozen)[0])      # an AnsiStr made earlier (checked after every step)
+            t = self.S(self.pick())
+            self.frozen.append((t, O.Snap(t._s)))                  # operands are arguments: they must not change
+            del self.frozen[:-4]
+            return ('S', t)
         return ('s', self.text(0, 4))
 
     def as_astr(self, kv):
